@@ -13,6 +13,7 @@ package http2_test
 import (
 	"fmt"
 	"os"
+	"runtime"
 	"strconv"
 	"strings"
 	"testing"
@@ -47,6 +48,13 @@ type c18ReqMon struct {
 
 type c18Mon struct {
 	lim1 bool
+	// write-lock window (see c18Exec): win is the connection on which the
+	// server is not reading and a DATA write of an open stream is stuck holding
+	// the connection's write lock; waiter: a request has been given its stream
+	// ID on win and is queued behind that write (its HEADERS are not written).
+	win       *c17Conn
+	waiter    bool
+	waiterReq int
 	w    *vx.W
 	h    *c17cli
 	cm   map[int]*c18ConnMon
@@ -105,7 +113,7 @@ func (m *c18Mon) observe(frames map[int][]c15Frame) {
 					}
 					if len(rq.abortedOn) > 0 {
 						m.feat["retried-on-new-connection"] = true
-						if m.h.reqs[reqIdx].body == "once" {
+						if c18OneShot(m.h.reqs[reqIdx].body) {
 							sent := 0
 							for _, oc := range m.h.connList() {
 								for _, st := range oc.streams {
@@ -207,7 +215,7 @@ func (m *c18Mon) quiescent(final bool) {
 					m.fail("request-above-last-stream-id-failed-not-retryable/"+c18BodyClass(r.body), "request %d (%s body) was above the GOAWAY's last-stream-id and failed with the non-retryable error %q; history:%s", r.idx, c18BodyClass(r.body), r.err, h.history())
 				}
 			}
-			if len(rq.abortedOn) > 0 && r.body != "once" {
+			if len(rq.abortedOn) > 0 && !c18OneShot(r.body) {
 				first := false
 				for ci := range rq.abortedOn {
 					if rq.firstErrOn[ci] {
@@ -250,10 +258,44 @@ func c18BodyClass(b string) string {
 	switch b {
 	case "replay":
 		return "replayable"
-	case "once":
+	case "once", "late":
 		return "one-shot"
 	}
 	return "no"
+}
+
+func c18OneShot(b string) bool { return b == "once" || b == "late" }
+
+// c18Spin yields to the other goroutines of the bubble until cond holds. It is
+// used only while a goroutine of the Transport waits for the connection's write
+// lock behind a write that the network does not accept: a goroutine blocked on
+// a sync.Mutex is not durably blocked, so synctest.Wait (and fake time) cannot
+// be used until the server reads again. cond is a state predicate that, once
+// true, stays true until the harness' next action.
+func c18Spin(cond func() bool) bool {
+	for i := 0; i < 200000; i++ {
+		if cond() {
+			return true
+		}
+		runtime.Gosched()
+	}
+	return false
+}
+
+// tick advances the harness step without a quiescence point.
+func (m *c18Mon) tick() {
+	m.h.mu.Lock()
+	m.h.step++
+	m.h.mu.Unlock()
+}
+
+func (m *c18Mon) anyNotReading() bool {
+	for _, c := range m.h.connList() {
+		if c.notReading && c.usable() {
+			return true
+		}
+	}
+	return false
 }
 
 // settle: quiescence, then enough fake time for the Transport's retry back-off
@@ -312,17 +354,79 @@ func c18Exec(t testing.TB, w *vx.W, cs c18Case) {
 			}
 			return conns[i]
 		}
+		spun := false // the event ended without a quiescence point (write-lock window)
 		switch {
-		case ev == "Q":
-			h.request("")
-		case ev == "Qr":
-			h.request("replay")
-		case ev == "Qo":
-			h.request("once")
+		case ev == "Q" || ev == "Qr" || ev == "Qo" || ev == "Ql":
+			kind := map[string]string{"Q": "", "Qr": "replay", "Qo": "once", "Ql": "late"}[ev]
+			if m.win == nil {
+				h.request(kind)
+				break
+			}
+			// A DATA write is stuck on m.win holding the write lock. A request that the pool hands to that
+			// connection gets its stream ID and then waits for the write lock (sync.Mutex): no quiescence point.
+			if m.waiter {
+				w.Outcome("pruned:second-request-behind-a-request-waiting-for-the-write-lock")
+				return
+			}
+			before := m.win.cc.C17Peek().Streams
+			r := h.request(kind)
+			assigned := func() (int, bool) {
+				for _, a := range h.assignList() {
+					if a.req == r.idx {
+						return a.conn, true
+					}
+				}
+				return -1, false
+			}
+			if !c18Spin(func() bool { _, ok := assigned(); return ok || r.finished() }) {
+				w.Outcome("pruned:window/request-not-handed-to-a-connection")
+				return
+			}
+			if ci, ok := assigned(); ok && ci == m.win.idx {
+				if !c18Spin(func() bool {
+					_, hdr := m.win.cc.C17WriteBusy()
+					return hdr && m.win.cc.C17Peek().Streams == before+1
+				}) {
+					w.Outcome("pruned:window/request-did-not-get-a-stream-id")
+					return
+				}
+				m.waiter, m.waiterReq = true, r.idx
+				m.feat["request-with-stream-id-waits-for-write-lock"] = true
+				spun = true
+			}
+		case ev[0] == 'B' || ev[0] == 'U':
+			c := connOf(ev[1])
+			if c == nil || !c.usable() || !m.conn(c).greeted || c.notReading != (ev[0] == 'U') {
+				w.Outcome("pruned:no-such-conn")
+				return
+			}
+			if ev[0] == 'B' {
+				c.stopReading()
+				m.feat["server-not-reading"] = true
+			} else {
+				c.resumeReading()
+				if c == m.win {
+					m.win, m.waiter = nil, false
+				}
+			}
+		case ev[0] == 'D':
+			j := int(ev[1] - '0')
+			if j < 1 || j > len(h.reqs) || h.reqs[j-1].late == nil || m.waiter || !h.reqs[j-1].late.release() {
+				w.Outcome("pruned:no-late-body-to-release")
+				return
+			}
 		case ev[0] == 'G':
 			c := connOf(ev[1])
 			if c == nil || !c.usable() || !m.conn(c).greeted {
 				w.Outcome("pruned:no-such-conn")
+				return
+			}
+			if m.waiter && (c != m.win || m.conn(c).goAway) {
+				w.Outcome("pruned:window/event-without-observable-completion")
+				return
+			}
+			if c.notReading && ev[2] != '0' && (ev[2] == 'M' || c.byID[uint32(ev[2]-'0')] == nil) {
+				w.Outcome("pruned:server-not-reading-names-a-stream-it-has-not-seen")
 				return
 			}
 			var last uint32
@@ -340,13 +444,34 @@ func c18Exec(t testing.TB, w *vx.W, cs c18Case) {
 				w.Outcome("pruned:goaway-last-id-increased") // RFC 9113 §6.8: MUST NOT increase
 				return
 			}
+			if c == m.win && !m.waiter {
+				// a stream other than the one whose write is stuck is aborted by this GOAWAY: its clean-up (RST_STREAM) waits for the write lock
+				for _, st := range c.streams {
+					if st.open() && st.id > last && st.req >= 0 && h.reqs[st.req].late == nil {
+						m.waiter, m.waiterReq = true, st.req
+					}
+				}
+			}
 			m.goAway(c, last, code)
 			c.goAway(last, code)
+			if m.waiter {
+				// c == m.win: the read loop still runs; wait until it has processed the GOAWAY
+				if !c18Spin(func() bool { return c.cc.C17Peek().GoAway }) {
+					w.Outcome("pruned:window/goaway-not-processed")
+					return
+				}
+				m.feat["goaway-while-request-waits-for-write-lock"] = true
+				spun = true
+			}
 		case ev[0] == 'E' || ev[0] == 'R':
 			c := connOf(ev[1])
 			j := int(ev[2] - '0')
 			if c == nil || !c.usable() || !m.conn(c).greeted || j < 1 || j > len(c.streams) {
 				w.Outcome("pruned:no-such-stream")
+				return
+			}
+			if m.waiter || c.notReading {
+				w.Outcome("pruned:server-answers-while-not-reading")
 				return
 			}
 			st := c.streams[j-1]
@@ -372,25 +497,65 @@ func c18Exec(t testing.TB, w *vx.W, cs c18Case) {
 				w.Outcome("pruned:no-such-conn")
 				return
 			}
+			if m.waiter && c != m.win {
+				w.Outcome("pruned:window/event-without-observable-completion")
+				return
+			}
 			for _, st := range c.streams {
 				if st.req >= 0 && !h.reqs[st.req].finished() {
 					m.req(st.req).connClosed = true
 				}
+			}
+			if c == m.win {
+				if m.waiter {
+					m.req(m.waiterReq).connClosed = true // it has no stream on the wire yet
+				}
+				m.win, m.waiter = nil, false // the stuck write fails: the write lock is released
 			}
 			c.close()
 			m.feat["connection-closed"] = true
 		default:
 			panic("unknown event " + ev)
 		}
-		m.settle(lim)
-		m.quiescent(false)
+		if spun {
+			m.tick()
+		} else {
+			m.settle(lim)
+			if m.win == nil {
+				for _, c := range h.connList() {
+					if stuck, hdr := c.writeStuck(); stuck && !hdr && c.usable() {
+						m.win = c
+						m.feat["data-write-stuck"] = true
+					}
+				}
+			}
+			if !m.anyNotReading() {
+				m.quiescent(false)
+			}
+		}
 		applied++
 		points++
 		if w.Failed() {
 			return
 		}
 	}
-	// end of history: the server side hangs up everywhere; nothing may stay pending
+	// end of history: the server reads again everywhere (what was stuck reaches the wire and is checked) …
+	resumed := false
+	for _, c := range h.connList() {
+		if c.notReading && c.usable() {
+			c.resumeReading()
+			resumed = true
+		}
+	}
+	if resumed {
+		m.win, m.waiter = nil, false
+		m.settle(lim)
+		m.quiescent(false)
+		if w.Failed() {
+			return
+		}
+	}
+	// … and then hangs up everywhere; nothing may stay pending
 	for round := 0; round < 10; round++ {
 		closedAny := false
 		for _, c := range h.connList() {
@@ -430,7 +595,7 @@ func c18Exec(t testing.TB, w *vx.W, cs c18Case) {
 	w.Nontrivial()
 	var feats []string
 	feats = append(feats, fmt.Sprintf("conns=%d", len(h.connList())))
-	for _, k := range []string{"in-flight-at-or-below-L", "in-flight-above-L", "first-stream-error-goaway", "retried-on-new-connection", "connection-closed"} {
+	for _, k := range []string{"in-flight-at-or-below-L", "in-flight-above-L", "first-stream-error-goaway", "retried-on-new-connection", "connection-closed", "data-write-stuck", "request-with-stream-id-waits-for-write-lock", "goaway-while-request-waits-for-write-lock"} {
 		if m.feat[k] {
 			feats = append(feats, k)
 		}
@@ -461,6 +626,10 @@ func c18RunCase(c *vx.Ctx, w *vx.W, cs c18Case) {
 type c18GenState struct {
 	nQ     int
 	nG     int
+	nB     int
+	late   int // 1-based index of the request with the late body (0 none), lateOut: its data has been released
+	lateOut bool
+	notReading [4]bool
 	conns  int // connections that may exist by now
 	closed [4]bool
 	used   map[string]bool
@@ -482,6 +651,7 @@ type c18GenOpts struct {
 	maxG   int
 	maxConns int
 	lim1   bool
+	window bool // with the back-pressure events Ql / B / D / U
 }
 
 func c18GenNext(st *c18GenState, o c18GenOpts, emit func(ev string, apply func(*c18GenState))) {
@@ -497,14 +667,34 @@ func c18GenNext(st *c18GenState, o c18GenOpts, emit func(ev string, apply func(*
 			})
 		}
 	}
+	if o.window && st.nQ < o.maxQ && st.late == 0 {
+		emit("Ql", func(s *c18GenState) {
+			s.nQ++
+			s.late = s.nQ
+			if s.conns == 0 {
+				s.conns = 1
+			}
+		})
+	}
+	if o.window && st.late > 0 && !st.lateOut {
+		emit("D"+strconv.Itoa(st.late), func(s *c18GenState) { s.lateOut = true })
+	}
 	for ci := 0; ci < st.conns && ci < o.maxConns; ci++ {
 		ci := ci
 		if st.closed[ci] {
 			continue
 		}
 		cn := string(rune('a' + ci))
+		if o.window && st.notReading[ci] {
+			emit("U"+cn, func(s *c18GenState) { s.notReading[ci] = false })
+		} else if o.window && st.nB < 1 {
+			emit("B"+cn, func(s *c18GenState) { s.nB++; s.notReading[ci] = true })
+		}
 		if st.nG < o.maxG {
 			for _, l := range o.lasts {
+				if st.notReading[ci] && (l == 'M' || int(l-'0') > 2*st.nQ-1) {
+					continue // a server that is not reading cannot name a stream it has not seen
+				}
 				for _, code := range "ne" {
 					emit("G"+cn+string(l)+string(code), func(s *c18GenState) {
 						s.nG++
@@ -517,7 +707,7 @@ func c18GenNext(st *c18GenState, o c18GenOpts, emit func(ev string, apply func(*
 		}
 		for j := 1; j <= st.nQ && j <= 3; j++ {
 			key := cn + strconv.Itoa(j)
-			if st.used[key] {
+			if st.used[key] || st.notReading[ci] {
 				continue
 			}
 			emit("E"+key, func(s *c18GenState) { s.used[key] = true })
@@ -525,6 +715,7 @@ func c18GenNext(st *c18GenState, o c18GenOpts, emit func(ev string, apply func(*
 		}
 		emit("X"+cn, func(s *c18GenState) {
 			s.closed[ci] = true
+			s.notReading[ci] = false
 			if s.conns < o.maxConns {
 				s.conns++
 			}
@@ -575,9 +766,10 @@ func c18Gen(cfg string, depth int, o c18GenOpts, prefix []string, yield func(c18
 func TestVerif_C18(t *testing.T) {
 	vx.Run(t, "C18", func(c *vx.Ctx) {
 		depth := vx.Pick(c, 4, 6)
-		c.Rule(fmt.Sprintf("every statically legal sequence of 1..%d events (shortest first) over {Q / Qr / Qo: new request without body / with a replayable body / with a one-shot body (<=3), G<conn><L><code>: GOAWAY with last-stream-id L in {0,1,3,5,2^31-1} and code NO_ERROR or ENHANCE_YOUR_CALM (<=2 per case, a second one never raises L), E<conn><j> response with END_STREAM on the j-th stream of the connection, R<conn><j> RST_STREAM, X<conn> the server closes the connection} on up to 3 connections, with and without MAX_CONCURRENT_STREAMS=1 (pooled, and with StrictMaxConcurrentStreams so that requests wait on the connection that receives the GOAWAY), plus seeded prefixes; a real Transport in its own synctest bubble, new connections are greeted with SETTINGS at once, 1.5 s of fake time pass after every event (retry back-off), and at the end of every case the server side closes all connections; a case is non-trivial when all its events were applicable at run time", depth))
+		c.Rule(fmt.Sprintf("every statically legal sequence of 1..%d events (shortest first) over {Q / Qr / Qo: new request without body / with a replayable body / with a one-shot body (<=3), G<conn><L><code>: GOAWAY with last-stream-id L in {0,1,3,5,2^31-1} and code NO_ERROR or ENHANCE_YOUR_CALM (<=2 per case, a second one never raises L), E<conn><j> response with END_STREAM on the j-th stream of the connection, R<conn><j> RST_STREAM, X<conn> the server closes the connection} on up to 3 connections, with and without MAX_CONCURRENT_STREAMS=1 (pooled, and with StrictMaxConcurrentStreams so that requests wait on the connection that receives the GOAWAY), plus seeded prefixes, plus the write-lock window: after the prefixes {Ql, Ba, D1} and (one event fewer) {Q, Ql, Ba, D2} (Ql: request whose body data is not available yet, B<conn>: the server stops reading so that the client's writes block, D<j>: the body data of request j becomes available and its DATA write gets stuck holding the connection's write lock) every sequence of 1..%d events over the alphabet extended with U<conn> (the server reads again) — a request issued in the window is given its stream ID and queues behind the stuck write, a GOAWAY sent in the window is processed before that request's HEADERS can be written; a real Transport in its own synctest bubble, new connections are greeted with SETTINGS at once, 1.5 s of fake time pass after every event (retry back-off), and at the end of every case the server side closes all connections; a case is non-trivial when all its events were applicable at run time", depth, vx.Pick(c, 3, 4)))
 		c.Assume("scope note of the design: the first stream of a connection (id 1) above the last-stream-id of a GOAWAY that carries an error code is deliberately not retried by the Transport (setGoAway: \"retrying the request on a new one probably isn't going to work\"); for it only \"an error is delivered, no duplicate\" is required")
 		c.Assume("a RoundTrip error counts as reported-retryable when the Transport's own canRetryError accepts it or it wraps the GOAWAY / unusable-connection cause (one-shot bodies cannot be replayed)")
+		c.Assume("write-lock window: while a Transport goroutine waits for the connection's write lock (a sync.Mutex, on which testing/synctest cannot wait) the harness has no quiescence point; it then completes an event by yielding until a state predicate holds (request handed to the connection and stream count increased with the new-request lock held; GOAWAY recorded by the ClientConn) and lets no fake time pass; there only one queued request, GOAWAYs on that connection, its close and 'server reads again' are explored, the server names no stream it has not read (L in {0, ids seen}, not 2^31-1), it does not answer streams while it is not reading, and the 1.5 s 'moved to another connection' clause is suspended until the server reads again (every case ends with the server reading again, then closing)")
 		c.Assume("the harness never answers or resets a stream above the last-stream-id it announced, and a second GOAWAY never raises the last-stream-id (RFC 9113 §6.8)")
 		quickReqs := []string{"Q", "Qo"}
 		allReqs := []string{"Q", "Qr", "Qo"}
@@ -599,6 +791,12 @@ func TestVerif_C18(t *testing.T) {
 		run("seed-error-goaway-first-stream", "", sd, so, []string{"Qr", "Qo", "Ga0e"})
 		run("seed-lim1-two-conns", "lim1", sd, so, []string{"Q", "Qr"})
 		run("seed-strict-lim2-third-waiting", "strict-lim2", sd, so, []string{"Q", "Qr", "Q"})
+		// write-lock window: the server stops reading, the released body of a request makes a DATA write get stuck
+		// holding the connection's write lock; a request issued now gets its stream ID and queues behind that write
+		wo := c18GenOpts{maxQ: 3, reqs: vx.Pick(c, quickReqs, allReqs), lasts: "013M", maxG: 2, maxConns: 3, window: true}
+		wd := vx.Pick(c, 3, 4)
+		run("window-data-write-stuck", "", wd, wo, []string{"Ql", "Ba", "D1"})
+		run("window-data-write-stuck-second-stream", "", wd-1, wo, []string{"Q", "Ql", "Ba", "D2"})
 		run("core", "", depth, o, nil)
 		run("strict-lim1", "strict-lim1", depth, o, nil)
 		run("lim1", "lim1", depth-1, o, nil)
